@@ -240,6 +240,9 @@ func (c *c16Case) nameCollision(withHist bool) bool {
 	seen := map[reflect.Type]*TDesc{}
 	structTypes(c.d, seen)
 	dynTypes(c.d, c.v, seen)
+	for _, t := range preRegistered {
+		structTypes(mustDescribe(t), seen)
+	}
 	if withHist {
 		for _, h := range c.hist {
 			structTypes(h.d, seen)
